@@ -55,6 +55,7 @@ def classify(rep, rec, accepted_base):
     v = rec["verdict"]
     key = rec["key"]
     rep.count_query(v)
+    rep.note_xsolver(rec)
     extra = {k: rec[k] for k in ("c", "il", "model", "bad", "il_final", "c_final", "contract_dependent", "fmt", "hyb")
              if k in rec}
     if v in ("equiv", "noped-ok"):
@@ -121,6 +122,7 @@ def run(tier):
                 extra_runs += 1
                 if r["verdict"] in ("equiv", "noped-ok"):
                     rep.count_query(r["verdict"])
+                    rep.note_xsolver(r)
                     continue
                 classify(rep, r, accepted_base)
     # reachability twins (vacuity guard): a negated write must be found
